@@ -184,7 +184,12 @@ func (g *gen) subRange(cur []vt.Iv, fd int, mode int) string {
 		// is a subset only if both ends lie in one run of touching parts
 		iv := cur[g.pick(len(cur), "kwiv")]
 		x := pt(iv, "kwx")
-		switch g.pick(7, "kwform") {
+		switch g.pick(9, "kwform") {
+		case 7:
+			// min as the upper, max as the lower boundary of a part
+			parts = []string{"min..min"}
+		case 8:
+			parts = []string{[]string{"max..max", "min..min | max..max", "max..min"}[g.pick(3, "kwodd")]}
 		case 4:
 			// a part that is the single boundary max (or min) stands for that one value
 			parts = []string{"max"}
